@@ -116,11 +116,13 @@ type unitSink struct {
 	want  unit
 	got   unit
 	field string
+	ctx   string // "" at a root; the parameter units when judged in a caller's context
 }
 
 type unitAnalysis struct {
-	p     *Program
-	sinks []unitSink
+	p       *Program
+	sinks   []unitSink
+	seenCtx map[string]bool
 }
 
 func isCommonStruct(t types.Type) bool {
@@ -348,6 +350,7 @@ func (e *unitEnv) run() []unit {
 }
 
 var unitCallMemo = map[string][]unit{}
+var unitCallSinks = map[string][]unitSink{}
 
 // callUnits returns result units of a call, analysing module helpers from their bodies.
 func (e *unitEnv) callUnits(call *ssa.Call) []unit {
@@ -375,7 +378,17 @@ func (e *unitEnv) callUnits(call *ssa.Call) []unit {
 		params[i] = e.get(a)
 		key += "|" + params[i].String()
 	}
+	addSinks := func() {
+		if e.ua.seenCtx == nil {
+			e.ua.seenCtx = map[string]bool{}
+		}
+		if !e.ua.seenCtx[key] {
+			e.ua.seenCtx[key] = true
+			e.ua.sinks = append(e.ua.sinks, unitCallSinks[key]...)
+		}
+	}
 	if r, ok := unitCallMemo[key]; ok {
+		addSinks()
 		return r
 	}
 	unitCallMemo[key] = nil
@@ -383,6 +396,23 @@ func (e *unitEnv) callUnits(call *ssa.Call) []unit {
 	// API typing also applies inside callees (e.g. Index called with an untyped vector keeps its own loc typing only at the root)
 	res := sub.run()
 	unitCallMemo[key] = res
+	// the callee's own stride-field stores, judged with the units this caller passes in (only where at least one
+	// argument carries a unit: an all-polymorphic context says nothing the root analysis of the callee does not)
+	typed := false
+	for _, u := range params {
+		if u.kind != 0 {
+			typed = true
+		}
+	}
+	if typed {
+		ctx := key[len(FuncKey(f)):]
+		for _, sk := range sub.storeSinks(ctx) {
+			if strings.HasPrefix(sk.what, "store to ") {
+				unitCallSinks[key] = append(unitCallSinks[key], sk)
+			}
+		}
+		addSinks()
+	}
 	return res
 }
 
@@ -409,35 +439,44 @@ func (ua *unitAnalysis) analyseRoot(fn *ssa.Function) {
 	}
 	e := ua.newEnv(fn, params, 0, true)
 	res := e.run()
-	// sinks
+	ua.sinks = append(ua.sinks, e.storeSinks("")...)
+	if fn.Name() == "Index" && fn.Signature.Recv() != nil && isCommonStruct(fn.Signature.Recv().Type()) && len(res) == 1 {
+		ua.sinks = append(ua.sinks, unitSink{pos: fn.Pos(), fn: fn, what: "result of Index", want: uS, got: res[0], field: "Index()"})
+	}
+}
+
+// storeSinks: the unit obligations inside the evaluated function: stores to the stride fields and indexings of Impl.
+// ctx is empty for a root (API typing) and names the calling context (parameter units) for a helper evaluated
+// for one of its callers: a setter helper's stores are then judged with the units its caller passes in.
+func (e *unitEnv) storeSinks(ctx string) []unitSink {
+	fn := e.fn
+	var out []unitSink
 	eachInstr(fn, func(_ *ssa.BasicBlock, _ int, ins ssa.Instruction) {
 		switch x := ins.(type) {
 		case *ssa.Store:
 			if fa, ok := x.Addr.(*ssa.FieldAddr); ok && isCommonStruct(fa.X.Type()) {
 				if name, _, ok := fieldName(fa); ok {
 					if want, ok := commonField[name]; ok {
-						ua.sinks = append(ua.sinks, unitSink{pos: x.Pos(), fn: fn, what: "store to " + name, want: want, got: e.get(x.Val), field: name})
+						out = append(out, unitSink{ctx: ctx, pos: x.Pos(), fn: fn, what: "store to " + name, want: want, got: e.get(x.Val), field: name})
 					}
 				}
 			}
 		case *ssa.IndexAddr:
 			if isImplValue(x.X) {
-				ua.sinks = append(ua.sinks, unitSink{pos: x.Pos(), fn: fn, what: "index into Impl", want: uS, got: e.get(x.Index), field: "Impl[]"})
+				out = append(out, unitSink{ctx: ctx, pos: x.Pos(), fn: fn, what: "index into Impl", want: uS, got: e.get(x.Index), field: "Impl[]"})
 			}
 		case *ssa.Slice:
 			if isImplValue(x.X) {
 				if x.Low != nil {
-					ua.sinks = append(ua.sinks, unitSink{pos: x.Pos(), fn: fn, what: "low bound of Impl[a:b]", want: uS, got: e.get(x.Low), field: "Impl[a:]"})
+					out = append(out, unitSink{ctx: ctx, pos: x.Pos(), fn: fn, what: "low bound of Impl[a:b]", want: uS, got: e.get(x.Low), field: "Impl[a:]"})
 				}
 				if x.High != nil {
-					ua.sinks = append(ua.sinks, unitSink{pos: x.Pos(), fn: fn, what: "high bound of Impl[a:b]", want: uS, got: e.get(x.High), field: "Impl[:b]"})
+					out = append(out, unitSink{ctx: ctx, pos: x.Pos(), fn: fn, what: "high bound of Impl[a:b]", want: uS, got: e.get(x.High), field: "Impl[:b]"})
 				}
 			}
 		}
 	})
-	if fn.Name() == "Index" && fn.Signature.Recv() != nil && isCommonStruct(fn.Signature.Recv().Type()) && len(res) == 1 {
-		ua.sinks = append(ua.sinks, unitSink{pos: fn.Pos(), fn: fn, what: "result of Index", want: uS, got: res[0], field: "Index()"})
-	}
+	return out
 }
 
 // isImplValue: v is (a load of, or a local copy of) the Impl field of a concrete array.
